@@ -159,7 +159,7 @@ Record config := mkConfig {
 Record pstate := mkState {
   st_request : request;             (* self.request as left by the chains *)
   st_upstream : bool;               (* self.upstream is not None *)
-  st_pipeline : option request      (* a COMPLETE self.pipeline_request that was kept *)
+  st_pipeline : option (request * bytes)   (* a COMPLETE self.pipeline_request that was kept, and its .buffer (bytes received after it) *)
 }.
 
 (* how a piece of handler code ended *)
@@ -266,24 +266,48 @@ Definition on_request_complete (cf : config) (ps : list plugin) (r : request) (c
 Definition is_connection_upgrade (r : request) : bool :=
   bytes_eqb (rq_version r) HTTP_1_1 && has_header r (bs "Connection") && has_header r (bs "Upgrade").
 
-(* on_client_data(raw).  [parsed] is the parser's verdict on this piece (outside this model, C03):
-   Some r when self.pipeline_request (fresh or partially fed) becomes complete with it. *)
-(* a complete later request goes through the handle_client_request chain and is rebuilt like the first one *)
-Definition run_later (cf : config) (ps : list plugin) (st : pstate) (pr : request) (l : log) : log * step_end :=
+(* on_client_data / _on_client_data (tree after fix e222aa4: `while remainder is not None: remainder =
+   self._on_client_data(remainder)`).  What the pipeline parser makes of the bytes is outside this model
+   (C03/C04); it enters as the list [parses]: the k-th entry is the verdict of the k-th parse() of a NOT yet
+   complete parser during this call — still incomplete, or complete with record r and `.buffer` = rem (the
+   bytes that followed the request in the same piece; [] = None). *)
+Inductive parse_result := PPartial | PComplete (r : request) (rem : bytes).
+
+(* a complete later request goes through the handle_client_request chain and is rebuilt like the first
+   one; [buf] is the parser's buffer.  Third component: the remainder `_on_client_data` returns *)
+Definition run_later (cf : config) (ps : list plugin) (st : pstate) (pr : request) (buf : bytes) (l : log)
+    : log * step_end * option bytes :=
   let '(l1, e) := chain HCR ARequest handle_client_request ps pr l in
   match norm_end e with
   | Done r1 =>
       let '(l2, r2, f) := queue_request_for_upstream cf (rq_tunnel (st_request st)) r1 l1 in
       match f with
-      | None => (l2, Continue (mkState (st_request st) true (if is_connection_upgrade r2 then Some r2 else None)))
-      | Some f => (l2, Failed (mkState (st_request st) true (Some r2)) f)
+      | None => (l2, Continue (mkState (st_request st) true (if is_connection_upgrade r2 then Some (r2, []) else None)),
+                 nonempty (Some buf))                     (* remainder = buffer; buffer = None *)
+      | Some f => (l2, Failed (mkState (st_request st) true (Some (r2, buf))) f, None)
       end
-  | Dropped rx => (l1, Continue (mkState (st_request st) true (Some rx)))    (* `return`: the complete parser is kept *)
-  | Rejected rx resp => (l1, Failed (mkState (st_request st) true (Some rx)) (FReject resp))
-  | Raised rx x => (l1, Failed (mkState (st_request st) true (Some rx)) (FRaise x))
+  | Dropped rx => (l1, Continue (mkState (st_request st) true (Some (rx, buf))), None)    (* `return None`: the complete parser is kept *)
+  | Rejected rx resp => (l1, Failed (mkState (st_request st) true (Some (rx, buf))) (FReject resp), None)
+  | Raised rx x => (l1, Failed (mkState (st_request st) true (Some (rx, buf))) (FRaise x), None)
   end.
 
-Definition on_client_data (cf : config) (ps : list plugin) (st : pstate) (raw : bytes) (parsed : option request)
+(* the loop over a fresh / partially fed pipeline parser *)
+Fixpoint client_loop (cf : config) (ps : list plugin) (st : pstate) (parses : list parse_result) (l : log)
+    : log * step_end :=
+  match parses with
+  | [] | PPartial :: _ => (l, Continue st)                 (* not complete yet: `return None` *)
+  | PComplete pr rem :: t =>
+      match run_later cf ps st pr rem l with
+      | (l1, Continue st1, Some rem') =>                   (* forwarded; the bytes after it are further client data *)
+          match st_pipeline st1 with
+          | Some _ => (l1 ++ [QueueUpstream QRaw rem'], Continue st1)     (* an upgrade was forwarded: relayed verbatim *)
+          | None => client_loop cf ps st1 t l1
+          end
+      | (l1, e, _) => (l1, e)
+      end
+  end.
+
+Definition on_client_data (cf : config) (ps : list plugin) (st : pstate) (raw : bytes) (parses : list parse_result)
     (l : log) : log * step_end :=
   if negb (st_upstream st) then
     let '(l1, e) := chain HCD ABytes handle_client_data ps raw l in
@@ -294,11 +318,19 @@ Definition on_client_data (cf : config) (ps : list plugin) (st : pstate) (raw : 
   else if rq_tunnel (st_request st) then (l ++ [QueueUpstream QRaw raw], Continue st)
   else
     match st_pipeline st with
-    | Some pr => if is_connection_upgrade pr then (l ++ [QueueUpstream QRaw raw], Continue st) else run_later cf ps st pr l
-    | None => match parsed with
-              | Some pr => run_later cf ps st pr l
-              | None => (l, Continue st)
+    | Some (pr, buf) =>
+        if is_connection_upgrade pr then (l ++ [QueueUpstream QRaw raw], Continue st)
+        else
+          (* parse() on the kept COMPLETE parser only appends to its buffer; the chain runs again on the same request *)
+          match run_later cf ps st pr (buf ++ raw) l with
+          | (l1, Continue st1, Some rem') =>
+              match st_pipeline st1 with
+              | Some _ => (l1 ++ [QueueUpstream QRaw rem'], Continue st1)
+              | None => client_loop cf ps st1 parses l1
               end
+          | (l1, e, _) => (l1, e)
+          end
+    | None => client_loop cf ps st parses l
     end.
 
 (* read_from_descriptors, the part after a successful upstream recv (275-293).  The bookkeeping
@@ -400,7 +432,7 @@ Definition shutdown (ps : list plugin) (st : option pstate) (c0 : ctx) (l : log)
 (* ------------------------------------------------------------------ histories of one connection *)
 Inductive step :=
 | SFirst (r : request) (conn_ok : bool)              (* the first request became complete: HttpProxyPlugin is created, on_request_complete *)
-| SClient (raw : bytes) (parsed : option request)    (* later bytes from the client *)
+| SClient (raw : bytes) (parses : list parse_result) (* later bytes from the client, and what the pipeline parser made of them *)
 | SUpstream (raw : bytes).                           (* bytes received from upstream *)
 
 (* does the failure leave handle_events() as an exception (the executor then shuts the work down at once)? *)
@@ -429,9 +461,9 @@ Fixpoint run_steps (cf : config) (ps : list plugin) (st : option pstate) (draini
               if escapes f then (handle_data_end f l1, Some st1)
               else run_steps cf ps (Some st1) true t (handle_data_end f l1)
           end
-      | Some st0, SClient raw parsed =>
+      | Some st0, SClient raw parses =>
           if draining then run_steps cf ps st draining t l else
-          match on_client_data cf ps st0 raw parsed l with
+          match on_client_data cf ps st0 raw parses l with
           | (l1, Continue st1) => run_steps cf ps (Some st1) false t l1
           | (l1, Failed st1 f) =>
               if escapes f then (handle_data_end f l1, Some st1)
